@@ -128,6 +128,8 @@ def run(chk: Check):
             pts, _ = gen_history(rng, sp, rng.randint(max(bs, 5), 12))
             # every sampler meets every kind of loss vector within four spaces
             kind = ["extreme", "ties", "offset", "extreme", "ordinary"][(it_a + si) % 5]
+            if it_a == 0:
+                kind = "extreme"          # (first space of every run: every sampler meets an extreme history held in single precision, see below)
             if kind == "extreme":
                 losses = extreme_losses(rng, len(pts))
             elif kind == "ties":
@@ -140,6 +142,13 @@ def run(chk: Check):
                 rng.shuffle(losses)
             else:
                 losses = np.array([rng.random() * 5 for _ in range(len(pts))])
+            if it_a == 0 or (it_a * 3 + si) % 4 == 1:
+                # the caller's loss history held in single precision (large runs are sometimes kept that way), infinite entries included: still the caller's
+                with np.errstate(all="ignore"):
+                    losses = losses.astype(np.float32)
+                if kind == "extreme" and not np.any(np.isinf(losses)):
+                    losses[rng.randrange(len(losses))] = np.float32(rng.choice([np.inf, -np.inf]))
+                chk.count("nomut:losses_dtype_float32")
             p0, l0 = pts.tobytes(), losses.tobytes()
             outcome = "ok"
             with quiet(), warnings.catch_warnings():
@@ -154,9 +163,10 @@ def run(chk: Check):
             if pts.tobytes() != p0:
                 chk.fail(f"{name} modified the history parameters passed to it", {"case": {"kind": "mut", "sampler": name}})
             if losses.tobytes() != l0:
-                j = next(i for i in range(len(losses)) if f2h(losses[i]) != f2h(np.frombuffer(l0)[i]))
-                chk.fail(f"{name} modified the history losses passed to it: entry {j} was {float(np.frombuffer(l0)[j])!r}, is now {float(losses[j])!r}",
-                         {"case": {"kind": "mut", "sampler": name, "losses": np.frombuffer(l0).tolist()}})
+                old_l = np.frombuffer(l0, dtype=losses.dtype)
+                j = next(i for i in range(len(losses)) if losses[i].tobytes() != old_l[i].tobytes())
+                chk.fail(f"{name} modified the history losses passed to it ({losses.dtype}): entry {j} was {float(old_l[j])!r}, is now {float(losses[j])!r}",
+                         {"case": {"kind": "mut", "sampler": name, "losses": old_l.astype(float).tolist(), "dtype": str(losses.dtype)}})
     # ---------------- (a') a growing history, a NEW array at every call as the calibrator passes it (np.vstack), the best point moving:
     # every array handed over at ANY earlier call must still be intact after every later call (a sampler may keep views of them)
     for _ in range(4 if chk.tier == "quick" else 50):
@@ -314,6 +324,12 @@ def run(chk: Check):
                     warnings.simplefilter("ignore")
                     out = smp.sample(sp, pts, losses)
             except Exception as e:  # noqa: BLE001
+                import traceback
+                import black_it as _bi
+                frames = traceback.extract_tb(e.__traceback__)
+                if frames and frames[-1].filename.startswith(str(Path(_bi.__file__).resolve().parent)):
+                    # raised by the library's own code, not by the third-party regressor: no batch at all on an admissible history
+                    chk.fail(f"{name}.sample raised {type(e).__name__}: {str(e)[:100]} (in {Path(frames[-1].filename).name}:{frames[-1].lineno}) on an admissible history", {"case": {"kind": "real_surrogate", "sampler": name}})
                 chk.count(f"skipped:{name}:{type(e).__name__}"); continue
             finally:
                 cls.fit, cls.predict = of, op
